@@ -433,7 +433,7 @@ def check_path_writable(path: str) -> bool:
     try:
         if path.endswith("\\") or path.endswith("/"):
             path = os.path.join(path, ".torrent")
-        existed = os.path.exists(path)
+        existed = os.path.lexists(path)
         with open(path, "ab") as _:
             pass
         # only remove the probe, never a file that was already there
